@@ -79,3 +79,14 @@ def run(ctx):
     ctx.notes["concurrent_rounds"] = len(traces)
     ctx.sample(traces[0][:25])
     vlib.check_traces(ctx, traces, "conc", module="TraceResolverCache", cfg="TraceResolverCache.cfg", specname="ResolverCache.tla")
+    # (C) parked interleavings: a lookup held at its first reading of the clock (the hook is the scheduler gate) while the
+    # zone changes, the other goroutine refreshes the entry and time passes - schedules the free-running rounds hit rarely
+    f_p = ctx.path("parked.ndjson")
+    rc3, out3 = ctx.go_test("^TestCacheParked$", env={"VH_OUT": f_p}, timeout=1200)
+    ptraces = vlib.split_traces(vlib.read_ndjson(f_p))
+    if len(ptraces) < 72:
+        raise vlib.Inconclusive("parked-interleaving driver produced %d traces:\n%s" % (len(ptraces), out3[-1500:]))
+    ctx.notes["parked_rounds"] = len(ptraces)
+    for tr in ptraces:
+        ctx.case("parked:" + vlib.fp(tr[1:]))
+    vlib.check_traces(ctx, ptraces, "parked", module="TraceResolverCache", cfg="TraceResolverCache.cfg", specname="ResolverCache.tla (parked)")
